@@ -1,4 +1,7 @@
 import Driver.C01
+import Driver.C02
+import Driver.C03
+import Driver.C04
 import Driver.C05
 import Driver.C06
 import Driver.C07
@@ -9,6 +12,7 @@ import Driver.C11
 import Driver.C12
 import Driver.C13
 import Driver.C15
+import Driver.C16
 import Driver.C17
 import Driver.C18
 import Driver.C19
@@ -18,6 +22,9 @@ namespace Driver
 def dispatch (p : String) (rest : List String) : String :=
   match p with
   | "C01" => C01.handle rest
+  | "C02" => C02.handle rest
+  | "C03" => C03.handle rest
+  | "C04" => C04.handle rest
   | "C05" => C05.handle rest
   | "C06" => C06.handle rest
   | "C07" => C07.handle rest
@@ -28,6 +35,7 @@ def dispatch (p : String) (rest : List String) : String :=
   | "C12" => C12.handle rest
   | "C13" => C13.handle rest
   | "C15" => C15.handle rest
+  | "C16" => C16.handle rest
   | "C17" => C17.handle rest
   | "C18" => C18.handle rest
   | "C19" => C19.handle rest
